@@ -1,9 +1,12 @@
 package props
 
 import (
+	"bytes"
+	"crypto"
 	"errors"
 	"fmt"
 	"io"
+	"math"
 	"math/big"
 	"sync"
 	"syscall"
@@ -309,4 +312,55 @@ func glvSteered(r *gen.Rng) (*big.Int, string) {
 	})
 	v, cl := glvScalar(r, glvByLambda[lam.String()], lam)
 	return v, "glv:" + cl
+}
+
+// publicAccessorFirst uses k.Public() (the crypto.Signer accessor) as the FIRST
+// public-key accessor of the key object and compares what it hands out with the
+// expected point d*G and with the typed accessor.  "" when everything agrees.
+func publicAccessorFirst(k *secec.PrivateKey, want *oracle.Pt) string {
+	var signer crypto.Signer = k
+	u := signer.Public()
+	if u == nil {
+		return "Public() returned nil"
+	}
+	pub, ok := u.(*secec.PublicKey)
+	if !ok {
+		return fmt.Sprintf("Public() returned a %T", u)
+	}
+	if pub == nil {
+		return "Public(), used before any other accessor, returned a nil *PublicKey (d is not mapped to d*G)"
+	}
+	if got := pub.Bytes(); !bytes.Equal(got, oracle.EncodeUncompressed(want)) {
+		return fmt.Sprintf("Public().Bytes() = %x, expected d*G = %x", got, oracle.EncodeUncompressed(want))
+	}
+	if !pub.Equal(k.PublicKey()) || !k.PublicKey().Equal(pub) {
+		return "Public() and PublicKey() disagree"
+	}
+	return ""
+}
+
+// undefinedEncoding returns a SignatureEncoding value that is none of the three
+// defined selectors: small positive and negative neighbours, values that
+// truncate to a defined selector in a byte or a 32-bit word, and the extremes.
+func undefinedEncoding(r *gen.Rng) secec.SignatureEncoding {
+	var v int64
+	switch r.Intn(6) {
+	case 0:
+		v = int64(3 + r.Intn(5))
+	case 1:
+		v = -int64(1 + r.Intn(5))
+	case 2:
+		v = int64(256*(1+r.Intn(3)) + r.Intn(3))
+	case 3:
+		v = int64(65536*(1+r.Intn(3)) + r.Intn(3))
+	case 4:
+		v = gen.Pick(r, int64(math.MaxInt32), math.MinInt32, math.MinInt32+1, math.MinInt32+2)
+	default:
+		v = -int64(r.U64()>>34) - 1
+	}
+	e := secec.SignatureEncoding(int(v))
+	if e == secec.EncodingASN1 || e == secec.EncodingCompact || e == secec.EncodingCompactRecoverable {
+		return secec.SignatureEncoding(-1)
+	}
+	return e
 }
